@@ -287,10 +287,16 @@ def build(inp) -> Case:
 
     # ---------------------------------------------------------------- construction
     kw = {}
+    # the easy counts in the forms callers have them: Python int, or a NumPy integer scalar (`mask.sum()`, `len`-like counts
+    # read from an array) - chosen from the case's own seed
+    npform = {0: int, 1: np.int64, 2: np.int32, 3: np.int64, 4: int, 5: int}[inp.get("perm_seed", 0) % 6]
+
+    def cnt(v):
+        return npform(v)
     if not (inp["defaults"] and eg == 0):
-        kw["nb_easy_genuines"] = eg
+        kw["nb_easy_genuines"] = cnt(eg)
     if not (inp["defaults"] and ef == 0):
-        kw["nb_easy_frauds"] = ef
+        kw["nb_easy_frauds"] = cnt(ef)
     if not (inp["defaults"] and sc == "genuine"):
         kw["score_class"] = (df.DocLabel.pos if sc == "genuine" else df.DocLabel.neg) if inp["sc_enum"] else sc
 
@@ -361,7 +367,7 @@ def build(inp) -> Case:
     obs = {}
     if fs is not None:
         translated = "pos" if sc == "genuine" else "neg"  # the harness's own translation
-        ref = Scores(pos=np.array(mg, dtype=npdt), neg=np.array(mf, dtype=npdt), nb_easy_pos=eg, nb_easy_neg=ef,
+        ref = Scores(pos=np.array(mg, dtype=npdt), neg=np.array(mf, dtype=npdt), nb_easy_pos=cnt(eg), nb_easy_neg=cnt(ef),
                      score_class=translated, equal_class="pos")
 
         def fail(clause, detail, sig=None):
